@@ -31,17 +31,17 @@ Definition sp_order (awaited : bool) (l : list nat) : list nat :=
 (* fields that only the driver changes *)
 Definition same_val (s s' : st) : Prop :=
   strong s' = strong s /\ cur s' = cur s /\ owned s' = owned s /\ ext s' = ext s /\
-  m_coro s' = m_coro s /\ m_void s' = m_void s.
+  m_coro s' = m_coro s /\ m_void s' = m_void s /\ held s' = held s.
 
 Lemma same_val_refl s : same_val s s. Proof. repeat split. Qed.
 Lemma same_val_trans a b c : same_val a b -> same_val b c -> same_val a c.
-Proof. unfold same_val. intros (?&?&?&?&?&?) (?&?&?&?&?&?). repeat split; congruence. Qed.
+Proof. unfold same_val. intros (?&?&?&?&?&?&?) (?&?&?&?&?&?&?). repeat split; congruence. Qed.
 
 Lemma same_val_alive s s' : same_val s s' -> alive s' = alive s.
 Proof. intros (H&_). unfold alive. rewrite H. reflexivity. Qed.
 Lemma same_val_ar s s' : same_val s s' -> await_resume s' = await_resume s.
 Proof.
-  intros H. pose proof (same_val_alive _ _ H) as A. destruct H as (H1&H2&H3&H4&H5&H6).
+  intros H. pose proof (same_val_alive _ _ H) as A. destruct H as (H1&H2&H3&H4&H5&H6&H7).
   unfold await_resume, deref. rewrite A, H2, H3, H4, H6. reflexivity.
 Qed.
 
@@ -360,6 +360,7 @@ Qed.
 Lemma sv_coro s s' : same_val s s' -> m_coro s' = m_coro s. Proof. intros H. apply H. Qed.
 Lemma sv_void s s' : same_val s s' -> m_void s' = m_void s. Proof. intros H. apply H. Qed.
 Lemma sv_strong s s' : same_val s s' -> strong s' = strong s. Proof. intros H. apply H. Qed.
+Lemma sv_held s s' : same_val s s' -> held s' = held s. Proof. intros H. apply H. Qed.
 
 Lemma emit_shape s kind awaited v s' o :
   step s (OEmit kind awaited v) = (s', o) -> o_st o = 0 ->
@@ -368,7 +369,7 @@ Lemma emit_shape s kind awaited v s' o :
   exists s2 e1 sp e2, walk (chain s) s1 = (s2, e1, sp) /\ dispose awaited sp s2 = (s', e2) /\
      o = mkObs 0 (zlen sp) 0 (frees (e1 ++ e2)) (e1 ++ e2).
 Proof.
-  intros E O. cbn [step] in E.
+  intros E O. cbn [step step0] in E.
   destruct (negb (alive s) || (awaited && negb (m_coro s)) || (m_void s && negb (Nat.eqb kind 0)) || Nat.ltb 2 kind) eqn:R.
   - inversion E; subst. discriminate.
   - apply orb_false_iff in R. destruct R as (R & _). apply orb_false_iff in R. destruct R as (R & _).
@@ -382,6 +383,23 @@ Proof.
     destruct (walk (chain s) _) as [[s2 e1] sp] eqn:W.
     destruct (dispose awaited sp s2) as [s3 e2] eqn:D. inversion E; subst.
     exists s2, e1, sp, e2. repeat split. exact D.
+Qed.
+
+Lemma hold_shape s kind v s' o :
+  step0 s (OEmitHold kind v) = (s', o) ->
+  negb (alive s) || (m_void s && negb (Nat.eqb kind 0)) || Nat.ltb 2 kind = false ->
+  alive s = true /\
+  let s1 := set_chain (if Nat.eqb kind 2 then set_val s VExt (owned s) v else set_val s VOwned (Some v) (ext s)) [] in
+  exists s2 e1 sp, walk (chain s) s1 = (s2, e1, sp) /\ s' = set_held s2 (held s2 ++ [sp]) /\
+     o = mkObs 0 (zlen sp) 0 (frees e1) e1.
+Proof.
+  intros E R. cbn [step0] in E. rewrite R in E.
+  apply orb_false_iff in R. destruct R as (R & _). apply orb_false_iff in R. destruct R as (R1 & _). apply negb_false_iff in R1.
+  split; [exact R1|]. cbn zeta. unfold notify in E.
+  assert (CH : chain (if Nat.eqb kind 2 then set_val s VExt (owned s) v else set_val s VOwned (Some v) (ext s)) = chain s)
+    by (destruct (Nat.eqb kind 2); reflexivity).
+  rewrite CH in E. destruct (walk (chain s) _) as [[s2 e1] sp] eqn:W. inversion E; subst.
+  exists s2, e1, sp. repeat split.
 Qed.
 
 Theorem broadcast : forall s kind awaited v s' o,
@@ -474,7 +492,7 @@ Lemma drop_last_shape s s' o : strong s = 1%nat -> step s ODrop = (s', o) ->
     s' = set_val s3 VNull None (ext s3) /\
     o = mkObs 0 0 0 (frees (map EFree (cbs (chain s)) ++ e2)) (map EFree (cbs (chain s)) ++ e2).
 Proof.
-  intros S1 E. cbn [step] in E. rewrite S1 in E. unfold notify in E.
+  intros S1 E. cbn [step step0] in E. rewrite S1 in E. unfold notify in E.
   change (chain (set_val (set_strong s 0) VNull (owned s) (ext s))) with (chain s) in E.
   rewrite (walk_dead (chain s) (set_chain (set_val (set_strong s 0) VNull (owned s) (ext s)) []) eq_refl) in E.
   cbn zeta. destruct (dispose false (cos (chain s)) _) as [s3 e2] eqn:D. inversion E; subst.
@@ -507,7 +525,7 @@ Qed.
 Theorem disconnect_queued : forall s s' o, strong s = 0%nat -> m_coro s = true -> step s OPause = (s', o) ->
   cancel_log (queue s) (o_ev o) /\ queue s' = [] /\ chain s' = chain s /\ strong s' = 0%nat.
 Proof.
-  intros s s' o S0 MC E. cbn [step] in E. rewrite MC in E. cbn [negb] in E.
+  intros s s' o S0 MC E. cbn [step step0] in E. rewrite MC in E. cbn [negb] in E.
   assert (A : alive (set_queue s []) = false) by (unfold alive; cbn [strong set_queue]; rewrite S0; reflexivity).
   destruct (drive_dead false (queue s) (set_queue s []) A) as (s1 & e1 & E1 & CL & SV & C & Q).
   rewrite E1 in E. inversion E; subst. cbn [o_ev].
@@ -519,7 +537,7 @@ Theorem await_disconnected : forall s i lim p r s' o, strong s = 0%nat -> get (t
   step s (OSpawn i lim p r) = (s', o) ->
   o_st o = 0 /\ o_ev o = dead_await r i /\ chain s' = chain s /\ queue s' = queue s /\ strong s' = 0%nat.
 Proof.
-  intros s i lim p r s' o S0 G E. cbn [step] in E. rewrite G in E.
+  intros s i lim p r s' o S0 G E. cbn [step step0] in E. rewrite G in E.
   set (s1 := setl s i _) in E.
   assert (A : alive s1 = false) by (unfold alive; cbn [strong s1 setl set_tab]; rewrite S0; reflexivity).
   destruct (co_await_e_dead r i s1 A) as (s2 & E2 & SV & C & Q). rewrite E2 in E. inversion E; subst.
@@ -530,7 +548,7 @@ Theorem connect_disconnected : forall s i lim s' o, strong s = 0%nat -> get (tab
   step s (OConnect i lim) = (s', o) ->
   o_ev o = [EFree i] /\ o_new o = 1 /\ o_del o = 1 /\ chain s' = chain s /\ queue s' = queue s.
 Proof.
-  intros s i lim s' o S0 G E. cbn [step] in E. rewrite G in E.
+  intros s i lim s' o S0 G E. cbn [step step0] in E. rewrite G in E.
   assert (A : alive s = false) by (unfold alive; rewrite S0; reflexivity). rewrite A in E.
   rewrite cb_resume_dead in E by exact A. inversion E; subst. repeat split.
 Qed.
@@ -602,9 +620,9 @@ Qed.
 
 Definition ncb (s : st) : Z := zlen (cbs (chain s)).   (* callback objects alive = callbacks in the chain *)
 
-Lemma step_balance s x s' o : step s x = (s', o) -> ncb s' = ncb s + o_new o - o_del o.
+Lemma step0_balance s x s' o : step0 s x = (s', o) -> ncb s' = ncb s + o_new o - o_del o.
 Proof.
-  intros E. unfold ncb. destruct x; cbn [step] in E.
+  intros E. unfold ncb. destruct x; cbn [step0] in E.
   - (* spawn *) destruct (get (tab s) i); [inversion E; subst; cbn [o_new o_del rejected chain set_strong]; lia|].
     destruct (co_await_e retry i _) as [s2 e] eqn:E2. inversion E; subst.
     destruct (co_await_e_grow _ _ _ _ _ E2) as (_ & _ & _ & G). rewrite (co_grow_cbs _ _ G). cbn [o_new o_del chain setl set_tab]. lia.
@@ -616,7 +634,7 @@ Proof.
   - (* emit *)
     destruct (negb (alive s) || (awaited && negb (m_coro s)) || (m_void s && negb (Nat.eqb kind 0)) || Nat.ltb 2 kind) eqn:R.
     + inversion E; subst. cbn [o_new o_del rejected chain set_strong]. lia.
-    + assert (E' : step s (OEmit kind awaited v) = (s', o)) by (cbn [step]; rewrite R; exact E).
+    + assert (E' : step s (OEmit kind awaited v) = (s', o)) by (cbn [step step0]; rewrite R; exact E).
       assert (O : o_st o = 0).
       { destruct (notify _) as [[a b] c]. destruct (dispose awaited c a). inversion E; subst. reflexivity. }
       destruct (emit_shape _ _ _ _ _ _ E' O) as (A & _ & s2 & e1 & sp & e2 & W & D & ->).
@@ -627,7 +645,7 @@ Proof.
   - (* copy *) destruct (alive s); inversion E; subst; cbn [o_new o_del rejected chain set_strong]; lia.
   - (* drop *) destruct (strong s) as [|[|k]] eqn:S.
     + inversion E; subst. cbn [o_new o_del rejected chain set_strong]. lia.
-    + assert (E' : step s ODrop = (s', o)) by (cbn [step]; rewrite S; exact E).
+    + assert (E' : step s ODrop = (s', o)) by (cbn [step step0]; rewrite S; exact E).
       destruct (drop_last_shape _ _ _ S E') as (s3 & e2 & D & -> & ->).
       destruct (dispose_frame _ _ _ _ _ D) as (_ & F2 & G).
       cbn [o_new o_del chain set_val]. rewrite (co_grow_cbs _ _ G). cbn [chain set_chain].
@@ -637,7 +655,63 @@ Proof.
     destruct (drive false (queue s) (set_queue s [])) as [s1 e] eqn:E1. inversion E; subst.
     destruct (drive_frame _ _ _ _ _ E1) as (_ & F & G). rewrite (co_grow_cbs _ _ G).
     cbn [o_new o_del chain set_queue]. rewrite (frees_nil_of_freeds _ F). lia.
+  - (* hold *)
+    destruct (negb (alive s) || (m_void s && negb (Nat.eqb kind 0)) || Nat.ltb 2 kind) eqn:R.
+    + inversion E; subst. cbn [o_new o_del rejected chain set_strong]. lia.
+    + assert (E' : step0 s (OEmitHold kind v) = (s', o)) by (cbn [step0]; rewrite R; exact E).
+      destruct (hold_shape _ _ _ _ _ E' R) as (A & s2 & e1 & sp & W & -> & ->).
+      destruct (walk_live _ _ _ (emit_ar s kind v [] A) _ _ _ W) as (_ & _ & _ & _ & _ & (d & Cd & _ & Bal) & _).
+      cbn [o_new o_del chain set_held]. rewrite Cd. cbn [chain set_chain]. rewrite app_nil_r. rewrite <- Bal. ring.
+  - (* release *) destruct (held s) as [|sp rest]; [inversion E; subst; cbn [o_new o_del rejected chain set_strong]; lia|].
+    destruct (dispose false sp (set_held s rest)) as [s1 e] eqn:D. inversion E; subst.
+    destruct (dispose_frame _ _ _ _ _ D) as (_ & F & G). rewrite (co_grow_cbs _ _ G).
+    cbn [o_new o_del chain set_held]. rewrite (frees_nil_of_freeds _ F). lia.
+  - (* await held *) destruct (m_coro s); cbn [negb] in E; [|inversion E; subst; cbn [o_new o_del rejected chain set_strong]; lia].
+    destruct (held s) as [|sp rest]; [inversion E; subst; cbn [o_new o_del rejected chain set_strong]; lia|].
+    destruct (dispose true sp (set_held s rest)) as [s1 e] eqn:D. inversion E; subst.
+    destruct (dispose_frame _ _ _ _ _ D) as (_ & F & G). rewrite (co_grow_cbs _ _ G).
+    cbn [o_new o_del chain set_held]. rewrite (frees_nil_of_freeds _ F). lia.
   - inversion E; subst. cbn [o_new o_del rejected chain set_strong]. lia.
+  - inversion E; subst. cbn [o_new o_del rejected chain set_strong]. lia.
+Qed.
+
+(* the observation of a spawn never counts allocations; a drop never allocates *)
+Lemma spawn_obs s i l p r s' o : step0 s (OSpawn i l p r) = (s', o) -> o_new o = 0 /\ o_del o = 0.
+Proof.
+  cbn [step0]. destruct (get (tab s) i); [intros E; inversion E; split; reflexivity|].
+  destruct (co_await_e r i _) as [s2 e]. intros E; inversion E; split; reflexivity.
+Qed.
+Lemma drop_obs s s' o : step0 s ODrop = (s', o) -> o_new o = 0.
+Proof.
+  cbn [step0]. destruct (strong s) as [|[|k]]; [intros E; inversion E; reflexivity| |intros E; inversion E; reflexivity].
+  destruct (notify _) as [[a b] c]. destruct (dispose false c a). intros E; inversion E; reflexivity.
+Qed.
+
+(* a property of single steps that composes carries over to the hook-up step *)
+Lemma step_cases s x s' o : step s x = (s', o) ->
+  (step0 s x = (s', o) /\ match x with OHookUp _ _ _ _ _ => False | _ => True end) \/
+  (exists i l p r keep s1 o1, x = OHookUp i l p r keep /\ step0 s (OSpawn i l p r) = (s1, o1) /\
+     ((keep || negb (o_st o1 =? 0) = true /\ s' = s1 /\ o = o1) \/
+      (keep = false /\ o_st o1 = 0 /\ exists s2 o2, step0 s1 ODrop = (s2, o2) /\ s' = s2 /\
+         o = mkObs 0 0 0 (o_del o2) (o_ev o1 ++ o_ev o2)))).
+Proof.
+  intros E. destruct x; try (left; split; [exact E|exact I]).
+  right. cbn [step] in E. destruct (step0 s (OSpawn i limit pause retry)) as [s1 o1] eqn:E1.
+  exists i, limit, pause, retry, keep, s1, o1. split; [reflexivity|]. split; [exact E1|].
+  destruct (keep || negb (o_st o1 =? 0)) eqn:K.
+  - left. inversion E; subst. repeat split.
+  - right. apply orb_false_iff in K. destruct K as (K1 & K2). apply negb_false_iff, Z.eqb_eq in K2.
+    destruct (step0 s1 ODrop) as [s2 o2] eqn:E2. inversion E; subst s' o.
+    split; [exact K1|]. split; [exact K2|]. exists s2, o2. repeat split.
+Qed.
+
+Lemma step_balance s x s' o : step s x = (s', o) -> ncb s' = ncb s + o_new o - o_del o.
+Proof.
+  intros E. destruct (step_cases _ _ _ _ E) as [(E0 & _)|(i & l & p & r & keep & s1 & o1 & -> & E1 & [(_ & -> & ->)|(_ & _ & s2 & o2 & E2 & -> & ->)])].
+  - exact (step0_balance _ _ _ _ E0).
+  - exact (step0_balance _ _ _ _ E1).
+  - rewrite (step0_balance _ _ _ _ E2), (step0_balance _ _ _ _ E1).
+    destruct (spawn_obs _ _ _ _ _ _ _ E1) as (N1 & D1). rewrite N1, D1, (drop_obs _ _ _ E2). cbn [o_new o_del]. lia.
 Qed.
 
 Fixpoint sum_new (l : list obs) : Z := match l with [] => 0 | o :: t => o_new o + sum_new t end.
@@ -655,11 +729,22 @@ Qed.
 (* once the state is gone nothing is ever subscribed again *)
 Definition dead_ok (s : st) : Prop := strong s = 0%nat -> chain s = [].
 
-Lemma step_dead_ok s x s' o : step s x = (s', o) -> dead_ok s -> dead_ok s'.
+Lemma dispose_dead awaited sp s s' e : alive s = false -> dispose awaited sp s = (s', e) -> chain s' = chain s.
+Proof.
+  intros A E. unfold dispose in E. destruct (negb (m_coro s)).
+  - destruct (drive_dead true (ready_items sp) s A) as (s1 & e1 & E1 & _ & _ & C & _). rewrite E1 in E. inversion E; subst. exact C.
+  - destruct (negb awaited); [inversion E; subst; reflexivity|]. destruct sp as [|x t]; [inversion E; subst; reflexivity|].
+    assert (A0 : alive (set_queue s []) = false) by exact A.
+    destruct (drive_dead false ((last (x :: t) 0%nat, true) :: queue s ++ ready_items (removelast (x :: t))) (set_queue s []) A0)
+      as (s1 & e1 & E1 & _ & _ & C & _).
+    rewrite E1 in E. inversion E; subst. exact C.
+Qed.
+
+Lemma step0_dead_ok s x s' o : step0 s x = (s', o) -> dead_ok s -> dead_ok s'.
 Proof.
   intros E OK S'. destruct (Nat.eq_dec (strong s) 0) as [S0|SN].
   - assert (A : alive s = false) by (unfold alive; rewrite S0; reflexivity).
-    specialize (OK S0). destruct x; cbn [step] in E.
+    specialize (OK S0). destruct x; cbn [step0] in E.
     + destruct (get (tab s) i); [inversion E; subst; exact OK|].
       set (s1 := setl s i _) in E. destruct (co_await_e_dead retry i s1 A) as (s2 & E2 & _ & C & _).
       rewrite E2 in E. inversion E; subst. rewrite C. exact OK.
@@ -671,9 +756,18 @@ Proof.
     + destruct (m_coro s); cbn [negb] in E; [|inversion E; subst; exact OK].
       destruct (drive_dead false (queue s) (set_queue s []) A) as (s1 & e1 & E1 & _ & _ & C & _).
       rewrite E1 in E. inversion E; subst. rewrite C. exact OK.
+    + rewrite A in E. cbn [negb orb] in E. inversion E; subst. exact OK.
+    + destruct (held s) as [|sp rest]; [inversion E; subst; exact OK|].
+      destruct (dispose false sp (set_held s rest)) as [s1 e] eqn:D. inversion E; subst.
+      rewrite (dispose_dead _ _ (set_held s rest) _ _ A D). exact OK.
+    + destruct (m_coro s); cbn [negb] in E; [|inversion E; subst; exact OK].
+      destruct (held s) as [|sp rest]; [inversion E; subst; exact OK|].
+      destruct (dispose true sp (set_held s rest)) as [s1 e] eqn:D. inversion E; subst.
+      rewrite (dispose_dead _ _ (set_held s rest) _ _ A D). exact OK.
+    + inversion E; subst. exact OK.
     + inversion E; subst. exact OK.
   - (* the state was alive: only the last drop kills it *)
-    destruct x; cbn [step] in E.
+    destruct x; cbn [step0] in E.
     + destruct (get (tab s) i); [inversion E; subst; contradiction|].
       destruct (co_await_e retry i _) as [s2 e] eqn:E2. inversion E; subst.
       destruct (co_await_e_grow _ _ _ _ _ E2) as (SV & _). rewrite (sv_strong _ _ SV) in S'. contradiction.
@@ -693,13 +787,35 @@ Proof.
       rewrite (sv_strong _ _ SV2), (sv_strong _ _ SV) in S'. destruct (Nat.eqb kind 2); cbn in S'; contradiction.
     + destruct (alive s); inversion E; subst; [cbn in S'; discriminate|contradiction].
     + destruct (strong s) as [|[|k]] eqn:S; [contradiction| |inversion E; subst; cbn in S'; discriminate].
-      assert (E' : step s ODrop = (s', o)) by (cbn [step]; rewrite S; exact E).
+      assert (E' : step s ODrop = (s', o)) by (cbn [step step0]; rewrite S; exact E).
       apply (disconnect _ _ _ S E').
     + destruct (m_coro s); cbn [negb] in E; [|inversion E; subst; contradiction].
       destruct (drive false (queue s) (set_queue s [])) as [s1 e] eqn:E1. inversion E; subst.
       destruct (drive_frame _ _ _ _ _ E1) as (SV & _). rewrite (sv_strong _ _ SV) in S'. contradiction.
+    + destruct (negb (alive s) || (m_void s && negb (Nat.eqb kind 0)) || Nat.ltb 2 kind) eqn:R; [inversion E; subst; contradiction|].
+      assert (E' : step0 s (OEmitHold kind v) = (s', o)) by (cbn [step0]; rewrite R; exact E).
+      destruct (hold_shape _ _ _ _ _ E' R) as (A & s2 & e1 & sp & W & -> & _).
+      destruct (walk_live _ _ _ (emit_ar s kind v [] A) _ _ _ W) as (SV & _).
+      cbn [strong set_held] in S'. rewrite (sv_strong _ _ SV) in S'. destruct (Nat.eqb kind 2); cbn in S'; contradiction.
+    + destruct (held s) as [|sp rest]; [inversion E; subst; contradiction|].
+      destruct (dispose false sp (set_held s rest)) as [s1 e] eqn:D. inversion E; subst.
+      destruct (dispose_frame _ _ _ _ _ D) as (SV & _). rewrite (sv_strong _ _ SV) in S'. contradiction.
+    + destruct (m_coro s); cbn [negb] in E; [|inversion E; subst; contradiction].
+      destruct (held s) as [|sp rest]; [inversion E; subst; contradiction|].
+      destruct (dispose true sp (set_held s rest)) as [s1 e] eqn:D. inversion E; subst.
+      destruct (dispose_frame _ _ _ _ _ D) as (SV & _). rewrite (sv_strong _ _ SV) in S'. contradiction.
+    + inversion E; subst. contradiction.
     + inversion E; subst. contradiction.
 Qed.
+
+Lemma step_dead_ok s x s' o : step s x = (s', o) -> dead_ok s -> dead_ok s'.
+Proof.
+  intros E OK. destruct (step_cases _ _ _ _ E) as [(E0 & _)|(i & l & p & r & keep & s1 & o1 & -> & E1 & [(_ & -> & ->)|(_ & _ & s2 & o2 & E2 & -> & ->)])].
+  - exact (step0_dead_ok _ _ _ _ E0 OK).
+  - exact (step0_dead_ok _ _ _ _ E1 OK).
+  - exact (step0_dead_ok _ _ _ _ E2 (step0_dead_ok _ _ _ _ E1 OK)).
+Qed.
+
 
 Lemma run_dead_ok ops : forall s, dead_ok s -> dead_ok (snd (run_from s ops)).
 Proof.
@@ -982,24 +1098,58 @@ Definition rinv (coro : bool) (s : st) : Prop :=
 
 (* the driver never discards the collector's result inside a coroutine *)
 Definition disc_op (coro : bool) (x : op) : Prop :=
-  match x with OEmit _ awaited _ => coro = false \/ awaited = true | _ => True end.
+  match x with
+  | OEmit _ awaited _ => coro = false \/ awaited = true
+  | OEmitHold _ _ | OHookUp _ _ _ _ _ => False     (* nor keeps it in a variable; hook-up is a first op only *)
+  | _ => True
+  end.
+
+Lemma step_held_nil coro s x s' o : step s x = (s', o) -> held s = [] -> disc_op coro x -> held s' = [].
+Proof.
+  intros E H D. destruct x; cbn [disc_op] in D; [| | | | | |destruct D| | |destruct D|]; cbn [step step0] in E.
+  - destruct (get (tab s) i); [inversion E; subst; exact H|].
+    destruct (co_await_e retry i _) as [s2 e] eqn:E2. inversion E; subst.
+    destruct (co_await_e_grow _ _ _ _ _ E2) as (SV & _). rewrite (sv_held _ _ SV). exact H.
+  - destruct (get (tab s) i); [inversion E; subst; exact H|]. destruct (alive s) eqn:A.
+    + inversion E; subst. exact H.
+    + rewrite cb_resume_dead in E by exact A. inversion E; subst. exact H.
+  - destruct (o_st o =? 0) eqn:O.
+    + apply Z.eqb_eq in O. assert (E' : step s (OEmit kind awaited v) = (s', o)) by exact E.
+      destruct (emit_shape _ _ _ _ _ _ E' O) as (A & _ & s2 & e1 & sp & e2 & W & Di & _).
+      destruct (walk_live _ _ _ (emit_ar s kind v [] A) _ _ _ W) as (SV & _).
+      destruct (dispose_frame _ _ _ _ _ Di) as (SV2 & _).
+      rewrite (sv_held _ _ SV2), (sv_held _ _ SV). destruct (Nat.eqb kind 2); exact H.
+    + destruct (negb (alive s) || _ || _ || _); [inversion E; subst; exact H|].
+      destruct (notify _) as [[a b] c]. destruct (dispose awaited c a). inversion E; subst. discriminate.
+  - destruct (alive s); inversion E; subst; exact H.
+  - destruct (strong s) as [|[|k]] eqn:S; [inversion E; subst; exact H| |inversion E; subst; exact H].
+    assert (E' : step s ODrop = (s', o)) by (cbn [step step0]; rewrite S; exact E).
+    destruct (drop_last_shape _ _ _ S E') as (s3 & e2 & Di & -> & _).
+    destruct (dispose_frame _ _ _ _ _ Di) as (SV & _). cbn [held set_val]. rewrite (sv_held _ _ SV). exact H.
+  - destruct (m_coro s); cbn [negb] in E; [|inversion E; subst; exact H].
+    destruct (drive false (queue s) (set_queue s [])) as [s1 e] eqn:E1. inversion E; subst.
+    destruct (drive_frame _ _ _ _ _ E1) as (SV & _). rewrite (sv_held _ _ SV). exact H.
+  - rewrite H in E. inversion E; subst. exact H.
+  - rewrite H in E. destruct (m_coro s); inversion E; subst; exact H.
+  - inversion E; subst. exact H.
+Qed.
 
 Lemma alive_sv s s' : same_val s s' -> alive s' = true -> alive s = true.
 Proof. intros SV A. rewrite <- (same_val_alive _ _ SV). exact A. Qed.
 
-Lemma step_rinv coro s x s' o : step s x = (s', o) -> rinv coro s -> disc_op coro x ->
+Lemma step_rinv coro s x s' o : step s x = (s', o) -> rinv coro s -> held s = [] -> disc_op coro x ->
   rinv coro s' /\
   match x with OEmit _ _ v => o_st o = 0 -> In (g, emitted s v) (delivs (o_ev o)) | _ => True end.
 Proof.
-  intros E (MC & F & I) D. destruct x.
-  - (* spawn *) split; [|exact Logic.I]. cbn [step] in E. destruct (get (tab s) i) eqn:G; [inversion E; subst s' o; exact (conj MC (conj F I))|].
+  intros E (MC & F & I) HN D. destruct x; try (destruct D; fail).
+  - (* spawn *) split; [|exact Logic.I]. cbn [step step0] in E. destruct (get (tab s) i) eqn:G; [inversion E; subst s' o; exact (conj MC (conj F I))|].
     assert (NE : i <> g) by (intros ->; destruct F as (N & _); contradiction).
     destruct (co_await_e retry i _) as [s2 e] eqn:E2. inversion E; subst s' o.
     destruct (co_await_e_grow _ _ _ _ _ E2) as (SV & Q & _ & Gr).
     split; [rewrite (sv_coro _ _ SV); exact MC|].
     split; [exact (co_await_e_flags _ _ _ _ _ E2 (flags_setl_other _ _ _ NE F))|].
     intros A. destruct (I (alive_sv _ _ SV A)) as (I1 & I2). split; [exact (co_grow_in _ _ _ Gr I1)|rewrite Q; exact I2].
-  - (* connect *) split; [|exact Logic.I]. cbn [step] in E. destruct (get (tab s) i) eqn:G; [inversion E; subst s' o; exact (conj MC (conj F I))|].
+  - (* connect *) split; [|exact Logic.I]. cbn [step step0] in E. destruct (get (tab s) i) eqn:G; [inversion E; subst s' o; exact (conj MC (conj F I))|].
     assert (NE : i <> g) by (intros ->; destruct F as (N & _); contradiction).
     destruct (alive s) eqn:A.
     + inversion E; subst s' o. split; [exact MC|]. split; [exact (flags_tab _ (setl s i _) eq_refl (flags_setl_other _ _ _ NE F))|].
@@ -1038,22 +1188,22 @@ Proof.
       * intros _. rewrite B1. apply in_map_iff. exists g. split; [reflexivity|]. apply in_or_app. right. apply in_sp_order. exact I1.
     + (* rejected *)
       assert (R : s' = s).
-      { cbn [step] in E. destruct (negb (alive s) || _ || _ || _); [inversion E; reflexivity|].
+      { cbn [step step0] in E. destruct (negb (alive s) || _ || _ || _); [inversion E; reflexivity|].
         destruct (notify _) as [[a b] c]. destruct (dispose awaited c a). inversion E; subst s' o. discriminate. }
       subst s'. split; [exact (conj MC (conj F I))|]. intros O'. rewrite O' in O. discriminate.
-  - (* copy *) split; [|exact Logic.I]. cbn [step] in E. destruct (alive s) eqn:A; inversion E; subst s' o.
+  - (* copy *) split; [|exact Logic.I]. cbn [step step0] in E. destruct (alive s) eqn:A; inversion E; subst s' o.
     + split; [exact MC|]. split; [exact (flags_tab _ s eq_refl F)|]. intros _. exact (I eq_refl).
     + split; [exact MC|]. split; [exact F|]. intros A'. rewrite A in A'. discriminate.
   - (* drop *) split; [|exact Logic.I]. destruct (strong s) as [|[|k]] eqn:S.
-    + cbn [step] in E. rewrite S in E. inversion E; subst s' o. exact (conj MC (conj F I)).
+    + cbn [step step0] in E. rewrite S in E. inversion E; subst s' o. exact (conj MC (conj F I)).
     + destruct (drop_last_shape _ _ _ S E) as (s3 & e2 & Di & -> & _).
       destruct (dispose_frame _ _ _ _ _ Di) as (SV & _).
       split; [cbn [m_coro set_val]; rewrite (sv_coro _ _ SV); exact MC|].
       split; [apply (flags_tab _ s3 eq_refl); apply (dispose_flags _ _ _ _ _ Di); exact (flags_tab _ s eq_refl F)|].
       intros A. exfalso. unfold alive in A. cbn [strong set_val] in A. rewrite (sv_strong _ _ SV) in A. discriminate.
-    + cbn [step] in E. rewrite S in E. inversion E; subst s' o.
+    + cbn [step step0] in E. rewrite S in E. inversion E; subst s' o.
       split; [exact MC|]. split; [exact (flags_tab _ s eq_refl F)|]. intros _. apply I. unfold alive. rewrite S. reflexivity.
-  - (* pause *) split; [|exact Logic.I]. cbn [step] in E. destruct (m_coro s) eqn:MS; cbn [negb] in E; [|inversion E; subst s' o; split; [rewrite MS; exact MC|split; [exact F|exact I]]].
+  - (* pause *) split; [|exact Logic.I]. cbn [step step0] in E. destruct (m_coro s) eqn:MS; cbn [negb] in E; [|inversion E; subst s' o; split; [rewrite MS; exact MC|split; [exact F|exact I]]].
     destruct (drive false (queue s) (set_queue s [])) as [s1 e] eqn:E1. inversion E; subst s' o.
     destruct (drive_frame _ _ _ _ _ E1) as (SV & _ & Gr).
     split; [rewrite (sv_coro _ _ SV); cbn [m_coro set_queue]; rewrite MS; exact MC|].
@@ -1061,6 +1211,9 @@ Proof.
     intros A. assert (A0 : alive s = true) by exact (alive_sv _ _ SV A).
     destruct (I A0) as (I1 & I2). split; [exact (co_grow_in _ _ _ Gr I1)|].
     rewrite (paused_items_queue _ _ _ _ _ I2 E1). intros ? [].
+  - cbn [step step0] in E. rewrite HN in E. inversion E; subst s' o. split; [exact (conj MC (conj F I))|exact Logic.I].
+  - cbn [step step0] in E. rewrite HN in E. assert (s' = s) by (destruct (m_coro s); inversion E; reflexivity). subst s'.
+    split; [exact (conj MC (conj F I))|exact Logic.I].
   - inversion E; subst s' o. split; [exact (conj MC (conj F I))|exact Logic.I].
 Qed.
 
@@ -1073,19 +1226,19 @@ Fixpoint none_missed (s : st) (ops : list op) : Prop :=
       /\ none_missed (fst r) t
   end.
 
-Lemma reawait_run coro ops : forall s, rinv coro s -> Forall (disc_op coro) ops -> none_missed s ops.
+Lemma reawait_run coro ops : forall s, rinv coro s -> held s = [] -> Forall (disc_op coro) ops -> none_missed s ops.
 Proof.
-  induction ops as [|x t IH]; intros s R D; cbn [none_missed]; [exact Logic.I|].
+  induction ops as [|x t IH]; intros s R HN D; cbn [none_missed]; [exact Logic.I|].
   inversion D as [|? ? D1 D2]; subst.
-  destruct (step s x) as [s1 o] eqn:E. destruct (step_rinv _ _ _ _ _ E R D1) as (R1 & P).
-  cbn [fst snd]. split; [destruct x; exact P|exact (IH _ R1 D2)].
+  destruct (step s x) as [s1 o] eqn:E. destruct (step_rinv _ _ _ _ _ E R HN D1) as (R1 & P).
+  cbn [fst snd]. split; [destruct x; exact P|exact (IH _ R1 (step_held_nil _ _ _ _ _ E HN D1) D2)].
 Qed.
 
 (* subscription establishes the invariant *)
 Lemma spawn_rinv s r s' o : alive s = true -> not_ready (queue s) -> get (tab s) g = None ->
   step s (OSpawn g 0 false r) = (s', o) -> rinv (m_coro s) s' /\ o_ev o = [EAwait g].
 Proof.
-  intros A N G E. cbn [step] in E. rewrite G in E.
+  intros A N G E. cbn [step step0] in E. rewrite G in E.
   set (s1 := setl s g _) in E. assert (A1 : alive s1 = true) by exact A.
   rewrite (co_await_e_alive _ _ _ A1) in E. inversion E; subst. split; [|reflexivity].
   split; [reflexivity|]. split.
@@ -1099,12 +1252,440 @@ End Reawait.
    discards the collector's result inside a coroutine: whatever the driver and the other listeners do afterwards (any op
    sequence, any scripts), every accepted collector call delivers its value to g in that very op. *)
 Theorem reawait_misses_none : forall g s r ops,
-  alive s = true -> not_ready (queue s) -> get (tab s) g = None ->
+  alive s = true -> not_ready (queue s) -> held s = [] -> get (tab s) g = None ->
   Forall (disc_op (m_coro s)) ops ->
   none_missed g (fst (step s (OSpawn g 0 false r))) ops.
 Proof.
-  intros g s r ops A N G D. destruct (step s (OSpawn g 0 false r)) as [s1 o] eqn:E.
-  destruct (spawn_rinv g s r s1 o A N G E) as (R & _). exact (reawait_run g (m_coro s) ops s1 R D).
+  intros g s r ops A N HN G D. destruct (step s (OSpawn g 0 false r)) as [s1 o] eqn:E.
+  destruct (spawn_rinv g s r s1 o A N G E) as (R & _).
+  exact (reawait_run g (m_coro s) ops s1 R (step_held_nil (m_coro s) _ _ _ _ E HN I) D).
+Qed.
+
+(* ================= run level: listener ids are unique across chain, ready queue and kept suspend points ================= *)
+Definition cnt (x : nat) (l : list nat) : nat := count_occ Nat.eq_dec l x.
+Arguments cnt : simpl never.
+Lemma cnt_app x a b : cnt x (a ++ b) = (cnt x a + cnt x b)%nat. Proof. apply count_occ_app. Qed.
+Lemma cnt_cons x a l : cnt x (a :: l) = (cnt x [a] + cnt x l)%nat. Proof. apply (count_occ_app Nat.eq_dec [a] l). Qed.
+Lemma cnt_nil x : cnt x [] = 0%nat. Proof. reflexivity. Qed.
+Lemma cnt_cons_map x a (c : list (nat * bool)) : cnt x (a :: map fst c) = (cnt x [a] + cnt x (map fst c))%nat. Proof. apply cnt_cons. Qed.
+Lemma cnt_self x : cnt x [x] = 1%nat. Proof. unfold cnt. cbn. destruct (Nat.eq_dec x x); [reflexivity|contradiction]. Qed.
+Lemma cnt_other x y : x <> y -> cnt x [y] = 0%nat. Proof. intros N. unfold cnt. cbn. destruct (Nat.eq_dec y x); [congruence|reflexivity]. Qed.
+Lemma cnt_in x l : In x l <-> (0 < cnt x l)%nat. Proof. apply count_occ_In. Qed.
+Lemma nodup_cnt l : NoDup l <-> forall x, (cnt x l <= 1)%nat. Proof. apply NoDup_count_occ. Qed.
+
+Definition cids (c : list (nat * bool)) : list nat := map fst c.
+Definition cq (s : st) : list nat := cids (chain s) ++ cids (queue s).
+Definition ids (s : st) : list nat := cq s ++ concat (held s).
+
+Lemma cids_app a b : cids (a ++ b) = cids a ++ cids b. Proof. apply map_app. Qed.
+
+Lemma co_await_e_place r i s s' e : co_await_e r i s = (s', e) ->
+  queue s' = queue s /\ held s' = held s /\ (chain s' = (i, false) :: chain s \/ chain s' = chain s).
+Proof.
+  intros E. destruct (co_await_e_frame _ _ _ _ _ E) as (SV & Q & _ & _ & _ & C1 & C2).
+  split; [exact Q|]. split; [exact (sv_held _ _ SV)|]. destruct (alive s); [left; exact (C1 eq_refl)|right; exact (C2 eq_refl)].
+Qed.
+
+Lemma co_resumed_place i s s' e p : co_resumed i s = (s', e, p) ->
+  queue s' = queue s /\ held s' = held s /\ ((chain s' = (i, false) :: chain s /\ p = false) \/ chain s' = chain s).
+Proof.
+  intros E. unfold co_resumed in E. destruct (await_resume s).
+  - destruct (negb (Nat.eqb (l_limit (getl s i)) 0) && Nat.eqb (S (l_cnt (getl s i))) (l_limit (getl s i))).
+    + inversion E; subst. repeat split. right. reflexivity.
+    + destruct (l_pause (getl s i)).
+      * inversion E; subst. repeat split. right. reflexivity.
+      * destruct (co_await_e _ i _) as [s2 e2] eqn:E2. inversion E; subst.
+        destruct (co_await_e_place _ _ _ _ _ E2) as (Q & H & C). split; [exact Q|]. split; [exact H|].
+        destruct C as [C|C]; [left; split; [exact C|reflexivity]|right; exact C].
+  - destruct (l_retry (getl s i)) as [|r'].
+    + inversion E; subst. repeat split. right. reflexivity.
+    + destruct (co_await_e r' i _) as [s2 e2] eqn:E2. inversion E; subst.
+      destruct (co_await_e_place _ _ _ _ _ E2) as (Q & H & C). split; [exact Q|]. split; [exact H|].
+      destruct C as [C|C]; [left; split; [exact C|reflexivity]|right; exact C].
+Qed.
+
+Ltac cnt_norm := unfold ids, cq, cids in *; cbn [map fst app concat chain queue held set_queue set_chain set_held] in *;
+  repeat (rewrite ?map_app, ?cnt_app, ?concat_app in * ); cbn [map fst concat] in *;
+  repeat (rewrite ?cnt_app, ?cnt_nil, ?(cnt_cons _ _ (_ :: _)), ?(cnt_cons _ _ (map _ _)), ?(cnt_cons _ _ (_ ++ _)) in * ).
+
+(* conservation: what is handed to a function ends up in the chain, in the queue, or is dropped (finished / freed) *)
+Lemma run_item_place inl it s s' e : run_item inl it s = (s', e) ->
+  held s' = held s /\ exists d, forall x, (cnt x [fst it] + cnt x (cq s) = cnt x d + cnt x (cq s'))%nat.
+Proof.
+  intros E. destruct it as [i ready]. cbn [fst]. unfold run_item in E. destruct ready.
+  - destruct (co_resumed i s) as [[s1 e1] p] eqn:E1. destruct (co_resumed_place _ _ _ _ _ E1) as (Q & H & C).
+    destruct p; [destruct inl|].
+    + destruct (co_await_e _ i s1) as [s2 e2] eqn:E2. inversion E; subst.
+      destruct (co_await_e_place _ _ _ _ _ E2) as (Q2 & H2 & C2). split; [congruence|].
+      destruct C as [(C & P)|C]; [discriminate|].
+      destruct C2 as [C2|C2].
+      * exists []. intros x. unfold cq, cids. rewrite Q2, Q, C2, C. cbn [map fst]. rewrite !cnt_app, cnt_cons_map, cnt_nil. lia.
+      * exists [i]. intros x. unfold cq, cids. rewrite Q2, Q, C2, C. lia.
+    + inversion E; subst. split; [exact H|]. destruct C as [(C & P)|C]; [discriminate|].
+      exists []. intros x. unfold cq, cids. cbn [chain queue set_queue]. rewrite Q, C, map_app. cbn [map fst]. rewrite !cnt_app, cnt_nil. lia.
+    + inversion E; subst. split; [exact H|]. destruct C as [(C & _)|C].
+      * exists []. intros x. unfold cq, cids. rewrite Q, C. cbn [map fst]. rewrite !cnt_app, cnt_cons_map, cnt_nil. lia.
+      * exists [i]. intros x. unfold cq, cids. rewrite Q, C. lia.
+  - destruct (co_await_e_place _ _ _ _ _ E) as (Q & H & C). split; [exact H|]. destruct C as [C|C].
+    + exists []. intros x. unfold cq, cids. rewrite Q, C. cbn [map fst]. rewrite !cnt_app, cnt_cons_map, cnt_nil. lia.
+    + exists [i]. intros x. unfold cq, cids. rewrite Q, C. lia.
+Qed.
+
+Lemma drive_place inl items : forall s s' e, drive inl items s = (s', e) ->
+  held s' = held s /\ exists d, forall x, (cnt x (cids items) + cnt x (cq s) = cnt x d + cnt x (cq s'))%nat.
+Proof.
+  induction items as [|it t IH]; intros s s' e E; cbn [drive] in E.
+  - inversion E; subst. split; [reflexivity|]. exists []. intros x. reflexivity.
+  - destruct (run_item inl it s) as [s1 e1] eqn:E1. destruct (drive inl t s1) as [s2 e2] eqn:E2. inversion E; subst.
+    destruct (run_item_place _ _ _ _ _ E1) as (H1 & d1 & P1). destruct (IH _ _ _ E2) as (H2 & d2 & P2).
+    split; [congruence|]. exists (d1 ++ d2). intros x. specialize (P1 x). specialize (P2 x).
+    unfold cids in *. cbn [map]. rewrite cnt_cons_map, cnt_app. lia.
+Qed.
+
+Lemma cb_resume_place i s s' e : cb_resume i s = (s', e) ->
+  queue s' = queue s /\ held s' = held s /\ (chain s' = (i, true) :: chain s \/ chain s' = chain s).
+Proof.
+  intros E. unfold cb_resume in E. destruct (negb (alive s)); [inversion E; subst; repeat split; right; reflexivity|].
+  destruct (await_resume s); [|inversion E; subst; repeat split; right; reflexivity].
+  destruct (Nat.eqb (l_limit (getl s i)) 0 || Nat.ltb (S (l_cnt (getl s i))) (l_limit (getl s i))); inversion E; subst; repeat split.
+  - left. reflexivity.
+  - right. reflexivity.
+Qed.
+
+Lemma walk_place w : forall s s' e sp, walk w s = (s', e, sp) ->
+  queue s' = queue s /\ held s' = held s /\
+  exists d, forall x, (cnt x (cids w) + cnt x (cids (chain s)) = cnt x d + cnt x sp + cnt x (cids (chain s')))%nat.
+Proof.
+  induction w as [|[i cb] t IH]; intros s s' e sp E; cbn [walk] in E.
+  - inversion E; subst. repeat split. exists []. intros x. reflexivity.
+  - destruct cb.
+    + destruct (cb_resume i s) as [s1 e1] eqn:E1. destruct (walk t s1) as [[s2 e2] sp2] eqn:E2. inversion E; subst.
+      destruct (cb_resume_place _ _ _ _ E1) as (Q1 & H1 & C1). destruct (IH _ _ _ _ E2) as (Q2 & H2 & d & P).
+      split; [congruence|]. split; [congruence|]. destruct C1 as [C1|C1]; rewrite C1 in P.
+      * exists d. intros x. specialize (P x). unfold cids in *. cbn [map fst] in *. rewrite !cnt_cons_map in *. lia.
+      * exists (i :: d). intros x. specialize (P x). unfold cids in *. cbn [map fst] in *. rewrite (cnt_cons x i d), !cnt_cons_map. lia.
+    + destruct (walk t s) as [[s2 e2] sp2] eqn:E2. inversion E; subst.
+      destruct (IH _ _ _ _ E2) as (Q2 & H2 & d & P). split; [exact Q2|]. split; [exact H2|].
+      exists d. intros x. specialize (P x). unfold cids in *. cbn [map fst] in *. rewrite (cnt_cons x i sp2), !cnt_cons_map. lia.
+Qed.
+
+Lemma cids_ready_items sp : cids (ready_items sp) = sp.
+Proof. unfold cids, ready_items. rewrite map_map. cbn. apply map_id. Qed.
+
+Lemma dispose_place awaited sp s s' e : dispose awaited sp s = (s', e) ->
+  held s' = held s /\ exists d, forall x, (cnt x sp + cnt x (cq s) = cnt x d + cnt x (cq s'))%nat.
+Proof.
+  intros E. unfold dispose in E. destruct (negb (m_coro s)).
+  - destruct (drive_place _ _ _ _ _ E) as (H & d & P). split; [exact H|]. exists d. intros x. rewrite <- (P x), cids_ready_items. reflexivity.
+  - destruct (negb awaited).
+    + inversion E; subst. split; [reflexivity|]. exists []. intros x. unfold cq. cbn [chain queue set_queue].
+      rewrite cids_app, cids_ready_items, !cnt_app, cnt_nil. lia.
+    + destruct sp as [|a t] eqn:SP.
+      * inversion E; subst. split; [reflexivity|]. exists []. intros x. reflexivity.
+      * rewrite <- SP in *. assert (NE : sp <> []) by (rewrite SP; discriminate).
+        destruct (drive_place _ _ _ _ _ E) as (H & d & P). split; [exact H|]. exists d. intros x. rewrite <- (P x).
+        unfold cq. cbn [chain queue set_queue].
+        change (cids ((last sp 0%nat, true) :: queue s ++ ready_items (removelast sp)))
+          with (last sp 0%nat :: cids (queue s ++ ready_items (removelast sp))).
+        rewrite cids_app, cids_ready_items.
+        rewrite (cnt_cons x (last sp 0%nat) (cids (queue s) ++ removelast sp)), !cnt_app. change (cids []) with (@nil nat). rewrite cnt_nil.
+        rewrite (app_removelast_last 0%nat NE) at 1. rewrite cnt_app. lia.
+Qed.
+
+(* every listener placed somewhere is known to the table; the table only grows *)
+Definition known (s : st) (i : nat) : Prop := get (tab s) i <> None.
+Definition tab_mono (s s' : st) : Prop := forall i, known s i -> known s' i.
+Lemma tab_mono_refl s : tab_mono s s. Proof. intros i H. exact H. Qed.
+Lemma tab_mono_trans a b c : tab_mono a b -> tab_mono b c -> tab_mono a c.
+Proof. intros H1 H2 i K. apply H2, H1, K. Qed.
+Lemma tab_mono_tab s s' : tab s' = tab s -> tab_mono s s'. Proof. intros T i K. unfold known in *. rewrite T. exact K. Qed.
+Lemma tab_mono_setl s i l : tab_mono s (setl s i l).
+Proof.
+  intros j K. unfold known, setl, set_tab in *. cbn [tab]. destruct (Nat.eq_dec i j) as [->|N].
+  - rewrite get_put_same. discriminate.
+  - rewrite get_put_other by exact N. exact K.
+Qed.
+Lemma known_setl s i l : known (setl s i l) i.
+Proof. unfold known, setl, set_tab. cbn [tab]. rewrite get_put_same. discriminate. Qed.
+
+Lemma co_await_e_mono r : forall i s s' e, co_await_e r i s = (s', e) -> tab_mono s s'.
+Proof.
+  induction r as [|r IH]; intros i s s' e E; cbn [co_await_e] in E; destruct (alive s).
+  - inversion E; subst. apply tab_mono_tab. reflexivity.
+  - inversion E; subst. apply tab_mono_refl.
+  - inversion E; subst. apply tab_mono_tab. reflexivity.
+  - destruct (co_await_e r i _) as [s2 e2] eqn:E2. inversion E; subst.
+    exact (tab_mono_trans _ _ _ (tab_mono_setl _ _ _) (IH _ _ _ _ E2)).
+Qed.
+Lemma co_resumed_mono i s s' e p : co_resumed i s = (s', e, p) -> tab_mono s s'.
+Proof.
+  intros E. unfold co_resumed in E. destruct (await_resume s).
+  - destruct (negb (Nat.eqb (l_limit (getl s i)) 0) && Nat.eqb (S (l_cnt (getl s i))) (l_limit (getl s i))).
+    + inversion E; subst. apply tab_mono_setl.
+    + destruct (l_pause (getl s i)).
+      * inversion E; subst. apply tab_mono_setl.
+      * destruct (co_await_e _ i _) as [s2 e2] eqn:E2. inversion E; subst.
+        exact (tab_mono_trans _ _ _ (tab_mono_setl _ _ _) (co_await_e_mono _ _ _ _ _ E2)).
+  - destruct (l_retry (getl s i)) as [|r'].
+    + inversion E; subst. apply tab_mono_refl.
+    + destruct (co_await_e r' i _) as [s2 e2] eqn:E2. inversion E; subst.
+      exact (tab_mono_trans _ _ _ (tab_mono_setl _ _ _) (co_await_e_mono _ _ _ _ _ E2)).
+Qed.
+Lemma run_item_mono inl it s s' e : run_item inl it s = (s', e) -> tab_mono s s'.
+Proof.
+  intros E. destruct it as [i ready]. unfold run_item in E. destruct ready.
+  - destruct (co_resumed i s) as [[s1 e1] p] eqn:E1. pose proof (co_resumed_mono _ _ _ _ _ E1) as M1.
+    destruct p; [destruct inl|].
+    + destruct (co_await_e _ i s1) as [s2 e2] eqn:E2. inversion E; subst. exact (tab_mono_trans _ _ _ M1 (co_await_e_mono _ _ _ _ _ E2)).
+    + inversion E; subst. exact (tab_mono_trans _ _ _ M1 (tab_mono_tab _ _ eq_refl)).
+    + inversion E; subst. exact M1.
+  - exact (co_await_e_mono _ _ _ _ _ E).
+Qed.
+Lemma drive_mono inl items : forall s s' e, drive inl items s = (s', e) -> tab_mono s s'.
+Proof.
+  induction items as [|it t IH]; intros s s' e E; cbn [drive] in E.
+  - inversion E; subst. apply tab_mono_refl.
+  - destruct (run_item inl it s) as [s1 e1] eqn:E1. destruct (drive inl t s1) as [s2 e2] eqn:E2. inversion E; subst.
+    exact (tab_mono_trans _ _ _ (run_item_mono _ _ _ _ _ E1) (IH _ _ _ E2)).
+Qed.
+Lemma cb_resume_mono i s s' e : cb_resume i s = (s', e) -> tab_mono s s'.
+Proof.
+  intros E. unfold cb_resume in E. destruct (negb (alive s)); [inversion E; subst; apply tab_mono_refl|].
+  destruct (await_resume s); [|inversion E; subst; apply tab_mono_refl].
+  destruct (Nat.eqb (l_limit (getl s i)) 0 || Nat.ltb (S (l_cnt (getl s i))) (l_limit (getl s i))); inversion E; subst.
+  - exact (tab_mono_trans _ _ _ (tab_mono_setl _ _ _) (tab_mono_tab _ _ eq_refl)).
+  - apply tab_mono_setl.
+Qed.
+Lemma walk_mono w : forall s s' e sp, walk w s = (s', e, sp) -> tab_mono s s'.
+Proof.
+  induction w as [|[i cb] t IH]; intros s s' e sp E; cbn [walk] in E.
+  - inversion E; subst. apply tab_mono_refl.
+  - destruct cb.
+    + destruct (cb_resume i s) as [s1 e1] eqn:E1. destruct (walk t s1) as [[s2 e2] sp2] eqn:E2. inversion E; subst.
+      exact (tab_mono_trans _ _ _ (cb_resume_mono _ _ _ _ E1) (IH _ _ _ _ E2)).
+    + destruct (walk t s) as [[s2 e2] sp2] eqn:E2. inversion E; subst. exact (IH _ _ _ _ E2).
+Qed.
+Lemma dispose_mono awaited sp s s' e : dispose awaited sp s = (s', e) -> tab_mono s s'.
+Proof.
+  intros E. unfold dispose in E. destruct (negb (m_coro s)); [exact (drive_mono _ _ _ _ _ E)|].
+  destruct (negb awaited); [inversion E; subst; apply tab_mono_tab; reflexivity|].
+  destruct sp; [inversion E; subst; apply tab_mono_refl|].
+  exact (tab_mono_trans _ _ _ (tab_mono_tab _ (set_queue s []) eq_refl) (drive_mono _ _ _ _ _ E)).
+Qed.
+
+(* the ids an op brings in *)
+Definition new_ids (s : st) (x : op) : list nat :=
+  match x with
+  | OSpawn i _ _ _ | OConnect i _ => match get (tab s) i with None => [i] | Some _ => [] end
+  | _ => []
+  end.
+
+Definition val_upd (s : st) (kind : nat) (v : Z) : st :=
+  if Nat.eqb kind 2 then set_val s VExt (owned s) v else set_val s VOwned (Some v) (ext s).
+
+Lemma notify_place s s' e sp : notify s = (s', e, sp) ->
+  queue s' = queue s /\ held s' = held s /\ tab_mono s s' /\
+  exists d, forall x, (cnt x (cids (chain s)) = cnt x d + cnt x sp + cnt x (cids (chain s')))%nat.
+Proof.
+  unfold notify. intros E. destruct (walk_place _ _ _ _ _ E) as (Q & H & d & P).
+  split; [exact Q|]. split; [exact H|]. split; [exact (tab_mono_trans _ _ _ (tab_mono_tab _ (set_chain s []) eq_refl) (walk_mono _ _ _ _ _ E))|].
+  exists d. intros x. rewrite <- (P x). cbn [chain set_chain]. change (cids []) with (@nil nat). rewrite cnt_nil. lia.
+Qed.
+
+Lemma step0_place s x s' o : step0 s x = (s', o) ->
+  tab_mono s s' /\ (forall i, In i (new_ids s x) -> known s' i) /\
+  exists d, forall y, (cnt y (new_ids s x) + cnt y (ids s) = cnt y d + cnt y (ids s'))%nat.
+Proof.
+  intros E. destruct x; cbn [step0] in E; cbn [new_ids].
+  - (* spawn *) destruct (get (tab s) i) eqn:G.
+    + inversion E; subst. split; [apply tab_mono_refl|]. split; [intros ? []|]. exists []. intros y. reflexivity.
+    + set (s1 := setl s i _) in E. destruct (co_await_e retry i s1) as [s2 e] eqn:E2. inversion E; subst.
+      pose proof (co_await_e_mono _ _ _ _ _ E2) as M2. destruct (co_await_e_place _ _ _ _ _ E2) as (Q & H & C).
+      split; [exact (tab_mono_trans _ _ _ (tab_mono_setl _ _ _) M2)|].
+      split; [intros j [<-|[]]; apply M2, known_setl|].
+      destruct C as [C|C].
+      * exists []. intros y. unfold ids, cq, cids. rewrite Q, H, C. cbn [map fst chain queue held s1 setl set_tab]. rewrite !cnt_app, cnt_cons_map, !cnt_nil. lia.
+      * exists [i]. intros y. unfold ids, cq, cids. rewrite Q, H, C. cbn [map fst chain queue held s1 setl set_tab]. rewrite !cnt_app. lia.
+  - (* connect *) destruct (get (tab s) i) eqn:G.
+    + inversion E; subst. split; [apply tab_mono_refl|]. split; [intros ? []|]. exists []. intros y. reflexivity.
+    + destruct (alive s) eqn:A.
+      * inversion E; subst. split; [exact (tab_mono_trans _ _ _ (tab_mono_setl _ _ _) (tab_mono_tab _ _ eq_refl))|].
+        split; [intros j [<-|[]]; apply known_setl|].
+        exists []. intros y. unfold ids, cq, cids. cbn [map fst chain queue held subscribe set_chain setl set_tab]. rewrite !cnt_app, cnt_cons_map, !cnt_nil. lia.
+      * rewrite cb_resume_dead in E by exact A. inversion E; subst. split; [apply tab_mono_setl|].
+        split; [intros j [<-|[]]; apply known_setl|].
+        exists [i]. intros y. unfold ids, cq, cids. cbn [map fst chain queue held setl set_tab]. rewrite !cnt_app. lia.
+  - (* emit *)
+    destruct (negb (alive s) || (awaited && negb (m_coro s)) || (m_void s && negb (Nat.eqb kind 0)) || Nat.ltb 2 kind).
+    + inversion E; subst. split; [apply tab_mono_refl|]. split; [intros ? []|]. exists []. intros y. reflexivity.
+    + fold (val_upd s kind v) in E. destruct (notify (val_upd s kind v)) as [[s2 e1] sp] eqn:N.
+      destruct (dispose awaited sp s2) as [s3 e2] eqn:D. inversion E; subst.
+      destruct (notify_place _ _ _ _ N) as (Q & H & M & d1 & P1). destruct (dispose_place _ _ _ _ _ D) as (H2 & d2 & P2).
+      assert (V : chain (val_upd s kind v) = chain s /\ queue (val_upd s kind v) = queue s /\ held (val_upd s kind v) = held s /\ tab (val_upd s kind v) = tab s)
+        by (unfold val_upd; destruct (Nat.eqb kind 2); repeat split).
+      destruct V as (V1 & V2 & V3 & V4).
+      split; [exact (tab_mono_trans _ _ _ (tab_mono_tab _ (val_upd s kind v) V4) (tab_mono_trans _ _ _ M (dispose_mono _ _ _ _ _ D)))|].
+      split; [intros ? []|]. exists (d1 ++ d2). intros y. specialize (P1 y). specialize (P2 y).
+      unfold ids, cq in *. rewrite H2, H, V3, Q, V2 in *. rewrite V1 in P1. rewrite !cnt_app in *. rewrite cnt_nil. lia.
+  - (* copy *) destruct (alive s); inversion E; subst; (split; [apply tab_mono_tab; reflexivity|]); (split; [intros ? []|]); exists []; intros y; reflexivity.
+  - (* drop *) destruct (strong s) as [|[|k]].
+    + inversion E; subst. split; [apply tab_mono_refl|]. split; [intros ? []|]. exists []. intros y. reflexivity.
+    + set (s1 := set_val (set_strong s 0) VNull (owned s) (ext s)) in E. destruct (notify s1) as [[s2 e1] sp] eqn:N.
+      destruct (dispose false sp s2) as [s3 e2] eqn:D. inversion E; subst.
+      destruct (notify_place _ _ _ _ N) as (Q & H & M & d1 & P1). destruct (dispose_place _ _ _ _ _ D) as (H2 & d2 & P2).
+      split; [exact (tab_mono_trans _ _ _ (tab_mono_tab _ s1 eq_refl) (tab_mono_trans _ _ _ M (tab_mono_trans _ _ _ (dispose_mono _ _ _ _ _ D) (tab_mono_tab _ _ eq_refl))))|].
+      split; [intros ? []|]. exists (d1 ++ d2). intros y. specialize (P1 y). specialize (P2 y).
+      unfold ids, cq in *. cbn [chain queue held set_val] in *. rewrite H2, H, Q in *. cbn [chain queue held s1 set_val set_strong] in *.
+      rewrite !cnt_app in *. rewrite cnt_nil. lia.
+    + inversion E; subst. split; [apply tab_mono_tab; reflexivity|]. split; [intros ? []|]. exists []. intros y. reflexivity.
+  - (* pause *) destruct (negb (m_coro s)).
+    + inversion E; subst. split; [apply tab_mono_refl|]. split; [intros ? []|]. exists []. intros y. reflexivity.
+    + destruct (drive false (queue s) (set_queue s [])) as [s1 e] eqn:E1. inversion E; subst.
+      destruct (drive_place _ _ _ _ _ E1) as (H & d & P).
+      split; [exact (tab_mono_trans _ _ _ (tab_mono_tab _ (set_queue s []) eq_refl) (drive_mono _ _ _ _ _ E1))|].
+      split; [intros ? []|]. exists d. intros y. specialize (P y). unfold ids, cq in *. rewrite H. cbn [chain queue held set_queue] in *.
+      change (cids []) with (@nil nat) in P. rewrite !cnt_app in *. rewrite cnt_nil in P. rewrite cnt_nil. lia.
+  - (* hold *)
+    destruct (negb (alive s) || (m_void s && negb (Nat.eqb kind 0)) || Nat.ltb 2 kind).
+    + inversion E; subst. split; [apply tab_mono_refl|]. split; [intros ? []|]. exists []. intros y. reflexivity.
+    + fold (val_upd s kind v) in E. destruct (notify (val_upd s kind v)) as [[s2 e1] sp] eqn:N. inversion E; subst.
+      destruct (notify_place _ _ _ _ N) as (Q & H & M & d1 & P1).
+      assert (V : chain (val_upd s kind v) = chain s /\ queue (val_upd s kind v) = queue s /\ held (val_upd s kind v) = held s /\ tab (val_upd s kind v) = tab s)
+        by (unfold val_upd; destruct (Nat.eqb kind 2); repeat split).
+      destruct V as (V1 & V2 & V3 & V4).
+      split; [exact (tab_mono_trans _ _ _ (tab_mono_tab _ (val_upd s kind v) V4) (tab_mono_trans _ _ _ M (tab_mono_tab _ _ eq_refl)))|].
+      split; [intros ? []|]. exists d1. intros y. specialize (P1 y). rewrite V1 in P1.
+      unfold ids, cq in *. cbn [chain queue held set_held]. rewrite H, V3, Q, V2, concat_app. cbn [concat]. rewrite app_nil_r, !cnt_app, cnt_nil. lia.
+  - (* release *) destruct (held s) as [|sp rest] eqn:HS.
+    + inversion E; subst. split; [apply tab_mono_refl|]. split; [intros ? []|]. exists []. intros y. reflexivity.
+    + destruct (dispose false sp (set_held s rest)) as [s1 e] eqn:D. inversion E; subst.
+      destruct (dispose_place _ _ _ _ _ D) as (H & d & P).
+      split; [exact (tab_mono_trans _ _ _ (tab_mono_tab _ (set_held s rest) eq_refl) (dispose_mono _ _ _ _ _ D))|].
+      split; [intros ? []|]. exists d. intros y. specialize (P y). unfold ids, cq in *. rewrite H, HS. cbn [chain queue held set_held concat] in *.
+      rewrite !cnt_app in *. rewrite cnt_nil. lia.
+  - (* await held *) destruct (negb (m_coro s)).
+    + inversion E; subst. split; [apply tab_mono_refl|]. split; [intros ? []|]. exists []. intros y. reflexivity.
+    + destruct (held s) as [|sp rest] eqn:HS.
+      * inversion E; subst. split; [apply tab_mono_refl|]. split; [intros ? []|]. exists []. intros y. reflexivity.
+      * destruct (dispose true sp (set_held s rest)) as [s1 e] eqn:D. inversion E; subst.
+        destruct (dispose_place _ _ _ _ _ D) as (H & d & P).
+        split; [exact (tab_mono_trans _ _ _ (tab_mono_tab _ (set_held s rest) eq_refl) (dispose_mono _ _ _ _ _ D))|].
+        split; [intros ? []|]. exists d. intros y. specialize (P y). unfold ids, cq in *. rewrite H, HS. cbn [chain queue held set_held concat] in *.
+        rewrite !cnt_app in *. rewrite cnt_nil. lia.
+  - inversion E; subst. split; [apply tab_mono_refl|]. split; [intros ? []|]. exists []. intros y. reflexivity.
+  - inversion E; subst. split; [apply tab_mono_refl|]. split; [intros ? []|]. exists []. intros y. reflexivity.
+Qed.
+
+(* the invariant: no id twice among chain, queue and kept suspend points, and every such id is in the table *)
+Definition uniq (s : st) : Prop := NoDup (ids s) /\ forall i, In i (ids s) -> known s i.
+
+Lemma step0_uniq s x s' o : step0 s x = (s', o) -> uniq s -> uniq s'.
+Proof.
+  intros E (ND & K). destruct (step0_place _ _ _ _ E) as (M & NK & d & P). split.
+  - apply nodup_cnt. intros y. specialize (P y). rewrite nodup_cnt in ND. specialize (ND y).
+    assert (B : (cnt y (new_ids s x) + cnt y (ids s) <= 1)%nat).
+    { destruct x; cbn [new_ids] in *; try (rewrite cnt_nil; lia);
+        (destruct (get (tab s) i) eqn:G; [rewrite cnt_nil; lia|]);
+        (destruct (Nat.eq_dec y i) as [->|NE]; [|rewrite (cnt_other _ _ NE); lia]);
+        (destruct (cnt i (ids s)) eqn:C0; [rewrite cnt_self; lia|]);
+        (exfalso; assert (I : In i (ids s)) by (apply cnt_in; lia); apply (K i I); exact G). }
+    lia.
+  - intros i I. apply cnt_in in I. specialize (P i).
+    assert (H : (0 < cnt i (new_ids s x) + cnt i (ids s))%nat) by lia.
+    destruct (cnt i (ids s)) eqn:C0.
+    + apply NK. apply cnt_in. lia.
+    + apply M, K. apply cnt_in. lia.
+Qed.
+
+Lemma step_uniq s x s' o : step s x = (s', o) -> uniq s -> uniq s'.
+Proof.
+  intros E U. destruct (step_cases _ _ _ _ E) as [(E0 & _)|(i & l & p & r & keep & s1 & o1 & -> & E1 & [(_ & -> & ->)|(_ & _ & s2 & o2 & E2 & -> & ->)])].
+  - exact (step0_uniq _ _ _ _ E0 U).
+  - exact (step0_uniq _ _ _ _ E1 U).
+  - exact (step0_uniq _ _ _ _ E2 (step0_uniq _ _ _ _ E1 U)).
+Qed.
+
+Lemma run_uniq ops : forall s, uniq s -> uniq (snd (run_from s ops)).
+Proof.
+  induction ops as [|x t IH]; intros s U; cbn [run_from]; [exact U|].
+  destruct (step s x) as [s1 o] eqn:E. specialize (IH s1 (step_uniq _ _ _ _ E U)).
+  destruct (run_from s1 t) as [os s2]. exact IH.
+Qed.
+
+Theorem unique_ids : forall coro vd ops,
+  NoDup (ids (snd (run_from (st0 coro vd) ops))).
+Proof.
+  intros coro vd ops. apply (run_uniq ops (st0 coro vd)). split; [constructor|intros i []].
+Qed.
+
+(* ... hence, at every collector call of a run (ordinary code or awaited, nothing pending), each listener waiting in
+   the chain receives exactly that value exactly once, and nobody else receives anything *)
+Lemma nodup_app_l {A} (a b : list A) : NoDup (a ++ b) -> NoDup a.
+Proof. induction a as [|x a IH]; [constructor|]. cbn. intros H. inversion H; subst. constructor; [intros I; apply H2, in_or_app; left; exact I|apply IH; exact H3]. Qed.
+
+Lemma cbs_cos_cnt c x : (cnt x (cbs c) + cnt x (cos c) = cnt x (cids c))%nat.
+Proof.
+  induction c as [|[i b] t IH]; [reflexivity|]. unfold cids in *. cbn [map fst].
+  destruct b; [rewrite cbs_cons_t, cos_cons_t, (cnt_cons x i (cbs t))|rewrite cbs_cons_f, cos_cons_f, (cnt_cons x i (cos t))]; rewrite cnt_cons_map; lia.
+Qed.
+
+Lemma sp_order_cnt b l x : cnt x (sp_order b l) = cnt x l.
+Proof.
+  unfold sp_order. destruct b; [|reflexivity]. destruct l as [|a t]; [reflexivity|].
+  assert (NE : a :: t <> []) by discriminate.
+  change (cnt x (last (a :: t) 0%nat :: removelast (a :: t)) = cnt x (a :: t)).
+  rewrite (cnt_cons x (last (a :: t) 0%nat) (removelast (a :: t))).
+  rewrite (app_removelast_last 0%nat NE) at 3. rewrite cnt_app. lia.
+Qed.
+
+Theorem exactly_once : forall coro vd ops kind awaited v,
+  let s := snd (run_from (st0 coro vd) ops) in
+  let r := step s (OEmit kind awaited v) in
+  o_st (snd r) = 0 -> (m_coro s = false \/ awaited = true) -> not_ready (queue s) ->
+  NoDup (delivs (o_ev (snd r))) /\
+  (forall i w, In (i, w) (delivs (o_ev (snd r))) <-> In i (cids (chain s)) /\ w = emitted s v).
+Proof.
+  intros coro vd ops kind awaited v s r O M N.
+  destruct r as [s' o] eqn:E. cbn [snd] in *.
+  destruct (broadcast _ _ _ _ _ _ E O M N) as (B & _).
+  pose proof (unique_ids coro vd ops) as U. fold s in U. unfold ids, cq in U.
+  apply nodup_app_l, nodup_app_l in U.
+  assert (ND : NoDup (cbs (chain s) ++ sp_order (m_coro s) (cos (chain s)))).
+  { apply nodup_cnt. intros x. rewrite nodup_cnt in U. specialize (U x).
+    rewrite cnt_app, sp_order_cnt. pose proof (cbs_cos_cnt (chain s) x). lia. }
+  rewrite B. split.
+  - apply FinFun.Injective_map_NoDup; [|exact ND]. intros a b H. inversion H. reflexivity.
+  - intros i w. rewrite in_map_iff. split.
+    + intros (j & H & I). inversion H; subst. split; [|reflexivity].
+      apply cnt_in. apply cnt_in in I. rewrite cnt_app, sp_order_cnt in I. pose proof (cbs_cos_cnt (chain s) i). lia.
+    + intros (I & ->). exists i. split; [reflexivity|].
+      apply cnt_in. apply cnt_in in I. rewrite cnt_app, sp_order_cnt. pose proof (cbs_cos_cnt (chain s) i). lia.
+Qed.
+
+(* ================= a kept suspend point ================= *)
+Lemma set_held_id s : set_held s (held s) = s. Proof. destruct s; reflexivity. Qed.
+Lemma set_held_twice s a b : set_held (set_held s a) b = set_held s b. Proof. reflexivity. Qed.
+
+(* keeping the collector's suspend point in a variable and destroying it with nothing in between is the same as
+   discarding it at once: same final state, same events in the same order *)
+Theorem hold_release : forall s kind v s1 o1 s2 o2 s' o,
+  held s = [] ->
+  step s (OEmitHold kind v) = (s1, o1) -> o_st o1 = 0 -> step s1 ORelease = (s2, o2) ->
+  step s (OEmit kind false v) = (s', o) ->
+  s2 = s' /\ o_st o = 0 /\ o_ev o1 ++ o_ev o2 = o_ev o /\ o_ret o1 = o_ret o.
+Proof.
+  intros s kind v s1 o1 s2 o2 s' o HN E1 O1 E2 E. cbn [step step0] in E1, E.
+  destruct (negb (alive s) || (m_void s && negb (Nat.eqb kind 0)) || Nat.ltb 2 kind) eqn:R.
+  - inversion E1; subst. discriminate.
+  - assert (R' : negb (alive s) || (false && negb (m_coro s)) || (m_void s && negb (Nat.eqb kind 0)) || Nat.ltb 2 kind = false).
+    { cbn [andb]. rewrite orb_false_r. exact R. }
+    rewrite R' in E.
+    destruct (notify _) as [[sa ea] sp] eqn:N. destruct (dispose false sp sa) as [sb eb] eqn:D.
+    inversion E1; subst s1 o1. inversion E; subst s' o. clear E1 E.
+    assert (HA : held sa = []).
+    { destruct (notify_place _ _ _ _ N) as (_ & H & _). rewrite H. destruct (Nat.eqb kind 2); exact HN. }
+    cbn [step step0] in E2. rewrite HA in E2. cbn [held set_held app] in E2. rewrite set_held_twice in E2.
+    rewrite <- HA, set_held_id, D in E2. inversion E2; subst. repeat split.
 Qed.
 
 (* ================= the refuted case (finding F-C15) ================= *)
